@@ -251,7 +251,7 @@ def check_workers_empty(ctx):
     for path, qual, flag in workers:
         f = repo.fn(path, qual)
         view = view_of(f)
-        conds = Conds(f.node, None)
+        conds = Conds(f.node, expander(view))
         loops = [n for n in walk_own(f.node) if isinstance(n, ast.For) and 'empty' in U(n.iter)]
         if len(loops) != 1:
             raise AnalysisError('%s: loop over the empty records not found' % f.where)
@@ -265,7 +265,8 @@ def check_workers_empty(ctx):
                       'the empty branch runs under `%s`, expected `%s and <right token count> == 0`' % (show(c), flag), lp)
             continue
         cnt = lens[0].left
-        ref = to_formula(parse_expr('%s and %s == 0' % (flag, U(cnt))))
+        flag_x = view.expand(ast.Name(id=flag, ctx=ast.Load()), lp)
+        ref = to_formula(ast.BoolOp(op=ast.And(), values=[flag_x, ast.Compare(left=cnt, ops=[ast.Eq()], comparators=[ast.Constant(0)])]))
         w = Universe(int_atoms=lambda a: True).equivalent(c, ref)
         from ..side import expr_side
         cnt_x = view.expand(cnt, lp)
@@ -355,6 +356,31 @@ def check_index_empty(ctx):
                   nontrivial=False)
 
 
+def check_size_index_posting(ctx):
+    """SizeIndex posts a row under its token count; a row without tokens must never be posted (an empty probe
+    would otherwise find it whatever allow_empty says)."""
+    repo = ctx.repo
+    b = repo.fn(P + 'index/size_index.py', 'SizeIndex.build')
+    view = view_of(b)
+    conds = Conds(b.node, expander(view))
+    posts = [n for n in walk_own(b.node) if isinstance(n, ast.Expr) and isinstance(n.value, ast.Call) and call_name(n.value) == 'append'
+             and 'self.index' in U(n.value.func.value)]
+    if len(posts) != 1:
+        raise AnalysisError('%s: posting append not found' % b.where)
+    c = conds.of(posts[0])
+    cnts = [e for _, e, _ in literals(c) if isinstance(e, ast.Compare) and 'len(' in U(e)
+            and isinstance(e.comparators[0], ast.Constant) and e.comparators[0].value in (0, 1)]
+    ok = False
+    if cnts:
+        cnt = cnts[0].left
+        w = Universe(int_atoms=lambda a: True).implies(c, to_formula(parse_expr('%s != 0' % U(cnt))))
+        ok = w is None
+    ctx.check('R-EMPTY/size-posting', b, 'posting', ok,
+              'SizeIndex posts a row under `%s`; a row with no tokens can be posted (under size 0) and is then returned for an '
+              'empty probe even when empty pairs are not allowed' % show(c)[:120], posts[0],
+              sample='posting only when the token count is not 0')
+
+
 def run(ctx, miss=True, empty=True):
     if miss:
         ctx.group('R-MISS')
@@ -366,3 +392,4 @@ def run(ctx, miss=True, empty=True):
         ctx.group('R-EMPTY')
         check_workers_empty(ctx)
         check_index_empty(ctx)
+        check_size_index_posting(ctx)
